@@ -60,6 +60,7 @@ Definition mon_C12 (c:mcfg) (s:mstate) (op:mop) (o:obs) : bool :=
       match ob_ret o with
       | OMaxOut => (n =? mc_limit c) && (match ob_events o with [] => true | _ => false end) && ob_same o
       | OOk => n <? mc_limit c
+      | OPanic => false               (* a request below the limit is accepted (or fails for a stated reason): it never panics *)
       | _ => n <? mc_limit c          (* other failures (small buffer) must not be reported at the limit *)
       end
   | _ => true
@@ -404,7 +405,7 @@ Definition mon_C08 (c:ccfg) (s:lt_mon) (op:mop) (o:obs) : lt_mon * N :=
 Definition fx (ns:N) : N := ns * 65536.
 Record rtt_mon := { rm_est : option (N * N);     (* srtt, rttvar; None = no sample since the start / the last reset *)
                     rm_last : option N;          (* instant of the latest request *)
-                    rm_poisoned : bool }.        (* a zero-length response time occurred: outside the property *)
+                    rm_poisoned : bool }.        (* a sample arrived while SRTT was exactly zero: outside the property *)
 Definition rtt_mon0 := {| rm_est := None; rm_last := None; rm_poisoned := false |}.
 Definition absdiff (a b:N) : N := if a <? b then b - a else a - b.
 Definition rfc6298_update (est:option (N*N)) (r:N) : option (N*N) :=
@@ -442,13 +443,72 @@ Definition mon_C15 (mc:mcfg) (c:ccfg) (core:mstate) (s:rtt_mon) (op:mop) (o:obs)
       let s' := fold_left (fun st i =>
                   match find_sent i core with
                   | Some x => if s_ntx x =? 1
-                              then (if now <=? s_t0 x
-                                    then {| rm_est := rm_est st; rm_last := rm_last st; rm_poisoned := true |}
-                                    else {| rm_est := rfc6298_update (rm_est st) (fx (now - s_t0 x)); rm_last := rm_last st; rm_poisoned := rm_poisoned st |})
+                              then (* a response time of zero IS a sample (first sample 0: SRTT = 0, RTTVAR = 0, RTO = G). What is outside
+                                      the property is a FURTHER sample once SRTT is exactly zero: the implementation encodes "no sample
+                                      yet" as SRTT = 0 and would treat it as a first sample again; judging stops there *)
+                                   (match rm_est st with
+                                    | Some (0, _) => {| rm_est := rm_est st; rm_last := rm_last st; rm_poisoned := true |}
+                                    | _ => {| rm_est := rfc6298_update (rm_est st) (fx (now - s_t0 x)); rm_last := rm_last st; rm_poisoned := rm_poisoned st |}
+                                    end)
                               else st
                   | None => st end) (finals (ob_events o)) s in
       (s', true)
   | _ => (s, true)
+  end.
+
+(* ---- C06, "a request first sent at t0 with retransmission timeout RTO ... with the defaults this is 0, 500, 1500, ...":
+   while no response time has been measured (since the start, or since the estimator went stale after more than ten minutes
+   without a request) the timeout in effect IS the configured RTO, exactly: the request is armed with it (with Rm times it
+   when Rc = 1: the only timer is then the final wait). mon_C06 judges the schedule relative to the timeout in effect;
+   this clause pins the timeout in effect where the property names it. `s` is the C15 monitor state before the call. *)
+Definition mon_C06_initial (mc:mcfg) (c:ccfg) (s:rtt_mon) (op:mop) (o:obs) : bool :=
+  if cc_reliable c then true else
+  match op, ob_ret o with
+  | MSend now id r _ _, OOk =>
+      let est := match rm_last s with
+                 | Some l => if 600000000000 <? now - l then None else rm_est s
+                 | None => rm_est s end in
+      match est with
+      | None =>
+          let armed := match find (fun e => h_ident e =? id) (ob_H o) with Some e => snd e | None => r end in
+          rm_poisoned s || ((r =? cc_rto c) && (armed =? (if mc_rc mc =? 1 then mc_rm mc else 1) * cc_rto c))
+      | Some _ => true
+      end
+  | _, _ => true
+  end.
+
+(* ---- C08, "after the server's 401 challenge the application is told to retry ... a 438 reply switches to the new nonce":
+   the IF direction (mon_C08 judges the ONLY-IF: a retry is told for nothing else). A PLAIN challenge — a decodable error
+   response to an outstanding request whose protected attributes carry, first of their kind, ERROR-CODE 401 with REALM and
+   NONCE (or 438 with a NONCE once the client has been challenged), no integrity attribute anywhere (so there is nothing to
+   verify), PASSWORD-ALGORITHMS exactly when the nonce cookie announces them and then with a supported algorithm, and the
+   valid FINGERPRINT a fingerprint-checking client insists on — must produce the retry notification for that request.
+   `core` / `s`: schedule and long-term monitor states BEFORE the call. *)
+Definition plain_challenge (fp:bool) (challenged:bool) (outstanding:bool) (dec:bool) (m:msg) : bool :=
+  let P := rfc_filter (m_attrs m) in
+  dec && outstanding
+  && (match m_class m with CError => true | _ => false end)
+  && negb (existsb is_integ P)
+  && (if fp then match find a_is_fp P with Some (AFP true) => true | _ => false end else true)
+  && (match get_nonce P with
+      | Some n => let bit := (snd n =? 2) || (snd n =? 4) in
+                  match get_algs P with
+                  | None => negb bit
+                  | Some l => match choose_alg l None with Some _ => true | None => false end
+                  end
+      | None => false end)
+  && (match get_code P with
+      | Some 401 => match get_realm P with Some _ => true | None => false end
+      | Some 438 => challenged
+      | _ => false end).
+Definition mon_C08_retry (c:ccfg) (core:mstate) (s:lt_mon) (op:mop) (o:obs) : bool :=
+  if negb (cc_mech c =? 4) then true else
+  match op with
+  | MRecv _ dec m =>
+      if plain_challenge (cc_fp c) (lm_challenged s) (memN (m_id m) (live core)) dec m
+      then existsb (fun e => match e with ERetry' i => i =? m_id m | _ => false end) (ob_events o)
+      else true
+  | _ => true
   end.
 
 (* verdicts: (property number, ok, class code) *)
